@@ -37,7 +37,9 @@ def generate(tier, seed):
              # named like the here/there copies of a propositional atom (the names anthem renames), true and false claims
              ('p(a). :- a, not a.', 'p(a).'), ('q :- a0 < a. :- a, not a.', 'q.'), ('p(a) :- a.', 'p(a) :- a, not not a.'),
              ('q :- s, hs < hs0.', 'q :- s.'), ('q :- s, ts = ts.', 'q :- s, hs != ts.'), ('p(hs) :- s.', 'p(ts) :- s.'),
-             ('q(hs, ts) :- s.', 'q(hs, ts) :- s, hs < ts.')]
+             ('q(hs, ts) :- s.', 'q(hs, ts) :- s, hs < ts.'),
+             # ... and a constant that already carries the name the renaming would pick (known finding: the two are merged)
+             ('q :- s, hs__s = hs.', 'q :- s.'), ('q :- s, hs__s != hs.', 'q :- s.')]
     n = 150 if tier == 'quick' else 676
     items = []
     for (l, r) in fixed + pairs[:n]:
@@ -137,7 +139,8 @@ def check_item(item):
             r.update(verdict=res['verdict'], ms=res['ms'], nontrivial=True, queries=res.get('queries'),
                      vc_size=sum(fol_size(f['formula']) for p in probs for f in p['formulas']))
             if res['verdict'] == 'sat':
-                r['signature'] = 'strong-equivalence-meaning'
+                merged = renamed_symbol_collisions(probs, (lp, rp))
+                r['signature'] = 'renamed-symbol-collides-with-input-symbol' if merged else 'strong-equivalence-meaning'
                 r['detail'] = 'problems: %s ; countermodel: %s' % (
                     ' | '.join('%s: %s' % (p['name'], '; '.join('%s %s' % (f['role'], f['tptp']) for f in p['formulas']))
                                for p in probs)[:900], driver.model_text(res['model'], 900))
